@@ -10,6 +10,9 @@
    step of a thread is one atomic action: a whole send (the level test is thread-local, the push
    is atomic by C30), one load of _stopping (the sample), one try_pop, one line written, one of the three
    statements of stop().
+   [file c] is the content of the log FILE, i.e. what has been flushed from the stream (the model
+   keeps the ofstream's buffer [obuf] apart; the unbuffered path of process_logline ends every
+   line with endl, which flushes); "written" below always means: in [file c].
    Ghost: [pushed c] all queue pushes so far, in order; [wrote c] the queue elements written so
    far, in file order (the file holds their texts: first clause of c28_order); [q_src x] the
    submit call (producer, call number) an element stems from (None: stop()'s marker);
